@@ -117,7 +117,7 @@ class C03(FCheck):
     def evaluate_fault(self, res, verdict, case, t0, plan, base):
         return self._tag(super().evaluate_fault(res, verdict, case, t0, plan, base), case)
 
-    EXTRA_SCHED = {"quick": 16, "thorough": 48}
+    EXTRA_SCHED = {"quick": 16, "thorough": 32}
 
     def items(self, tier, seed):
         for it in super().items(tier, seed):
@@ -135,7 +135,10 @@ class C03(FCheck):
         if case.get("alias") and item.get("extra_sched") and not item.get("only"):
             r = random.Random(item["pick_seed"] ^ 0xc03)
             same_name = case.get("alias") == "same-name-link-to-source"
-            for j in range(item["extra_sched"] * (30 if same_name else 1)):
+            n_extra = item["extra_sched"] * (30 if same_name else 1)
+            if item["extra_sched"] > 16:
+                n_extra = item["extra_sched"] * (6 if same_name else 1)  # thorough tier: many more such cases, fewer schedules each
+            for j in range(n_extra):
                 # (the same-name case races at system-call granularity - a link made between another thread's stat and open - and
                 # is hit by roughly one schedule in a hundred: many cheap schedules, few of them stepped)
                 sp = gen.sched_plan(r, ustep=0.2 if same_name else 1.0)
